@@ -30,7 +30,8 @@ MANIFEST = dict(
 
 INVC = ["InvExact", "InvRefine", "InvSymmetric", "InvIdentical", "InvRange", "InvRefusal", "InvNotPrefix", "InvTotal"]
 INVM = ["InvCards", "InvBracket", "InvSolverPre", "InvMleOutcome"]
-PARAMS = [[1.001, 256, 20.0, 65534], [1.2, 64, 20.0, 62], [2.0, 128, 20.0, 62], "default"]
+# the last tuple has a fine base: with sets of a thousand items the top registers saturate at q + 1 = 65535 (u16 maximum)
+PARAMS = [[1.001, 256, 20.0, 65534], [1.2, 64, 20.0, 62], [2.0, 128, 20.0, 62], "default", [1.0002, 256, 20.0, 65534]]
 
 
 def consts(**over):
